@@ -322,7 +322,11 @@ def _classify_factory(c, prog=None):
     inlining = []
 
     def holds_events(hb):
-        for m_ in hir.nodes(hb["body"], "MethodCall"):
+        # (directly, or in a helper of its own: `answer(request, doctx)` -> `respond(request, features::hover, doctx)`)
+        ns_ = hir.nodes_deep(prog, hb["body"], 2, crate=c) if prog is not None else hir.nodes(hb["body"])
+        for m_ in ns_:
+            if m_.get("k") != "MethodCall":
+                continue
             d_ = m_.get("d") or ""
             if d_ == "io::Request::split" or d_.startswith("io::PreparedResponse::into_"):
                 return True
@@ -1708,7 +1712,9 @@ def rule_broker(prog):
                 flag_ids.add(l["pat"]["id"])
     # ... or stored in a field of the broker's state struct
     flag_fields = set()
-    for st in hir.nodes(b["body"], "Struct"):
+    # (the struct may be put together by a constructor the broker calls: `DocumentStore::new(iotx, send_diagnostics)`)
+    b_inl_ = hir.inline_calls(prog, b["body"], c, depth=2, only=lambda hb: c.file_of(hb["sp"]) == c.file_of(b["sp"]))
+    for st in list(hir.nodes(b["body"], "Struct")) + list(hir.nodes(b_inl_, "Struct")):
         for f in st["fields"]:
             pl0 = hir.path_local(hir.strip(f["e"]))
             if pl0 and pl0["id"] in flag_ids:
